@@ -135,7 +135,7 @@ PROPS = {
                "times (predicate finds_existing_branch). non-trivial = a plan was returned"),
 }
 
-for _p, _m in [("C01", "C01c"), ("C02", "C02c"), ("C02", "C02d"), ("C02", "C02e"), ("C02", "Presets"), ("C06", "C02d"), ("C07", "TieCons"), ("C04", "TieCons"), ("C08", "TieCons"), ("C18", "TieCons"), ("C13", "TieCons"), ("C13", "C13b"), ("C14", "TieCons"), ("C10", "TieColl"), ("C10", "C10b"), ("C11", "TieColl"), ("C14", "TieColl"), ("C04", "C04b"), ("C06", "C06b"), ("C08", "C08b"), ("C15", "C15b"), ("C15", "C15c")]:
+for _p, _m in [("C01", "C01c"), ("C02", "C02c"), ("C02", "C02d"), ("C02", "C02e"), ("C02", "Presets"), ("C06", "C02d"), ("C07", "TieCons"), ("C04", "TieCons"), ("C08", "TieCons"), ("C18", "TieCons"), ("C13", "TieCons"), ("C12", "TieCart"), ("C13", "C13b"), ("C14", "TieCons"), ("C10", "TieColl"), ("C10", "C10b"), ("C11", "TieColl"), ("C14", "TieColl"), ("C04", "C04b"), ("C06", "C06b"), ("C08", "C08b"), ("C15", "C15b"), ("C15", "C15c")]:
     PROPS[_p] = dict(PROPS[_p], extra_modules=list(PROPS[_p].get("extra_modules", [])) + [_m])
 
 for _p in SRC_TIED:
